@@ -10,7 +10,8 @@
 (***************************************************************************)
 EXTENDS Integers, Sequences, FiniteSets, TLC
 
-CONSTANTS MaxPos       \* node positions 0..MaxPos (taken modulo the template's node count)
+CONSTANTS MaxPos,      \* node positions 0..MaxPos (taken modulo the template's node count)
+          MaxChain     \* length of copy / move chains (0: none)
 
 VARIABLES plan, outcome
 vars == <<plan, outcome>>
@@ -43,11 +44,20 @@ Replacements == {"null", "true", "zero", "minus_one", "huge_number", "empty_stri
                  "deep_nesting", "removed", "duplicated", "other_type", "string_of_number", "array_of_self", "negative_index",
                  "huge_index", "pointer_into_own_source", "non_string_key_value", "unicode_garbage"}
 
-Plans == UNION {{[ep |-> e, template |-> t, pos |-> p, repl |-> r] : t \in Templates[e], p \in 0..MaxPos, r \in Replacements} :
-                  e \in EntryPoints}
-ValidPlan(pl) == pl.template \in Templates[pl.ep]
+\* chains of copy / move operations among a few locations of one document: a library that links nodes
+\* instead of copying them must not be led into a cyclic document
+ChainPtrs == {"/other", "/c", "/c/b", "/other/x", "/other/arr/0", "/c/b/y"}
+ChainOps == {[op |-> o, from |-> f, path |-> p] : o \in {"copy", "move"}, f \in ChainPtrs, p \in ChainPtrs}
+ChainOpsOf(k) == IF k = 3 THEN {c \in ChainOps : c.op = "copy"} ELSE ChainOps     \* (the longest chains: copies only)
+Chains == UNION {[1..k -> ChainOpsOf(k)] : k \in 1..MaxChain}
+ChainPlans == {[ep |-> "ApplyPatches", template |-> "alias_chain", pos |-> 0, repl |-> "unchanged", chain |-> c] : c \in Chains}
 
-NoPlan == [ep |-> "none", template |-> "none", pos |-> 0, repl |-> "none"]
+Plans == UNION {{[ep |-> e, template |-> t, pos |-> p, repl |-> r, chain |-> <<>>] : t \in Templates[e], p \in 0..MaxPos, r \in Replacements} :
+                  e \in EntryPoints}
+           \cup ChainPlans
+ValidPlan(pl) == pl.template = "alias_chain" \/ pl.template \in Templates[pl.ep]
+
+NoPlan == [ep |-> "none", template |-> "none", pos |-> 0, repl |-> "none", chain |-> <<>>]
 
 Init == plan = NoPlan /\ outcome = "ok"
 
